@@ -260,9 +260,9 @@ static EngineRegistrar reg5(new C05Engine);
 // ------------------------------------------------------------------------------------------------ C06
 
 static const char *kUsers[] = { "alice", "a", "user.name", "user-name_1", "o'neil", "50%off", "comma,user", "equals=user", "both,=x", "\xc3\xa9milie", "gr\xc3\xbc\xc3\x9f" "e",
-                                "\xce\xb1\xce\xbb\xce\xaf\xce\xba\xce\xb7", "\xe5\xbc\xa0\xe4\xbc\x9f", "x=2C", "UPPER", "semi;colon", "plus+tag", "tilde~", "back\\slash", "q\"uote" };
+                                "\xce\xb1\xce\xbb\xce\xaf\xce\xba\xce\xb7", "\xe5\xbc\xa0\xe4\xbc\x9f", "x=2C", "UPPER", "semi;colon", "plus+tag", "tilde~", "back\\slash", "q\"uote", "joe%2", "50%3off", "%1", "%1%2%3", "100%" };
 static const char *kPasswords[] = { "pencil", "correct horse battery staple", "p", "with,comma=equals", "quote\"d \\ back", "\xc3\xa9t\xc3\xa9", "\xcf\x80\xce\xb1\xcf\x83\xcf\x83", "\xe5\xaf\x86\xe7\xa0\x81",
-                                    "emoji\xf0\x9f\x94\x91key", "0123456789012345678901234567890123456789012345678901234567890123456789", "sp ace", "<&>'", ":colon:", "tr\xc3\xa4iling=" };
+                                    "emoji\xf0\x9f\x94\x91key", "0123456789012345678901234567890123456789012345678901234567890123456789", "sp ace", "<&>'", ":colon:", "tr\xc3\xa4iling=", "%1pw", "pw%2%3" };
 
 class C06Engine : public Engine
 {
